@@ -651,6 +651,11 @@ static void map_pass(const plan_t *p)
                 /* m[k] = m[k]: the value handed in is the map's own object for that key (get() returns it, not a copy) */
                 b = SPIF_MAP_SET(mp, kk, SPIF_MAP_GET(mp, kk));
                 probe_hit("set_own_value");
+            } else if (o->a[2] == 3 && k[3] == 0) {
+                /* m[k] = k: one and the same object handed in as key and as value -- the map still keeps a copy of each */
+                b = SPIF_MAP_SET(mp, kk, kk);
+                val = key;
+                probe_hit("set_key_as_its_own_value");
             } else if (k[3] == 0) b = SPIF_MAP_SET(mp, kk, vv);
             else {
                 spif_objpair_t pr = spif_objpair_new_from_both(SPIF_OBJ(kk), SPIF_OBJ(vv));
@@ -851,7 +856,7 @@ static void gen_map(plan_t *p, rng_t *r)
         int s = ex[1] && rng_chance(r, 1, 2) ? 1 : 0, k = (int)rng_below(r, 100);
         long key = (long)rng_below(r, (uint32_t)krange);
         if (!ex[s]) { plan_op(p, 0, "new", 1, (long)s); ex[s] = 1; continue; }
-        if (k < 40) { int pair = rng_chance(r, 1, 6); plan_op(p, 0, pair ? "set_pair" : "set", 3, (long)s, key, !pair && rng_chance(r, 1, 8) ? 2L : (long)rng_chance(r, 1, 2)); }
+        if (k < 40) { int pair = rng_chance(r, 1, 6); plan_op(p, 0, pair ? "set_pair" : "set", 3, (long)s, key, !pair && rng_chance(r, 1, 8) ? 2L : !pair && rng_chance(r, 1, 10) ? 3L : (long)rng_chance(r, 1, 2)); }
         else if (k < 62) { if (rng_chance(r, 1, 5)) plan_op(p, 0, "remove", 3, (long)s, key, 1L); else plan_op(p, 0, "remove", 2, (long)s, key); }
         else if (k < 68) plan_op(p, 0, "has_value", 2, (long)s, (long)rng_range(r, -1, 6));
         else if (k < 70) plan_op(p, 0, rng_chance(r, 1, 2) ? "iter_beyond" : "iter_partial", 2, (long)s, (long)rng_below(r, 1000));
